@@ -66,6 +66,7 @@ class Campaign:
 @dataclass
 class ShardOut:
     evaluations: int = 0
+    cases: int = 0
     keys: set = field(default_factory=set)
     classes: Counter = field(default_factory=Counter)
     samples: list = field(default_factory=list)
@@ -77,6 +78,7 @@ class ShardOut:
 
     def record(self, r: Result):
         self.evaluations += max(1, r.weight)
+        self.cases += 1
         for k in r.nt_keys:
             self.keys.add(hashlib.sha1(k.encode("utf-8", "replace")).hexdigest()[:16])
         for c in r.classes:
@@ -233,6 +235,7 @@ def run_property(prop: str, tier: str, seed: int) -> int:
         pc = per_camp.setdefault(cname, ShardOut())
         for tgt in (pc, total):
             tgt.evaluations += so.evaluations
+            tgt.cases += so.cases
             tgt.keys |= so.keys
             tgt.classes.update(so.classes)
             tgt.known_hits.update(so.known_hits)
@@ -268,8 +271,8 @@ def run_property(prop: str, tier: str, seed: int) -> int:
     floor_fail = []
     for c in camps:
         pc = per_camp.get(c.name)
-        if pc and c.floor_nontrivial and pc.evaluations and not violations:
-            frac = len(pc.keys) / pc.evaluations
+        if pc and c.floor_nontrivial and pc.cases and not violations:
+            frac = len(pc.keys) / pc.cases
             if frac < c.floor_nontrivial:
                 floor_fail.append(f"{c.name}: non-trivial fraction {frac:.3f} < floor {c.floor_nontrivial}")
     if (errors or floor_fail) and rc == 0:
